@@ -236,7 +236,7 @@ func (w *Worker) runPath(prefix []int64) *pathState {
 		funcs: map[*ssa.Function]struct{}{},
 		unwind: e.Opts.Unwind, stepBudget: e.Opts.StepBudget, tracing: e.Opts.Trace,
 		mutexes: map[*value]*mutexState{}, wgs: map[*value]*wgState{}, onces: map[*value]*onceState{},
-		explore: e.Opts.Explore, schedBudget: e.Opts.SchedBudget, extra: map[string]interface{}{},
+		explore: e.Opts.Explore, schedBudget: e.Opts.SchedBudget, extra: map[string]interface{}{}, syncMaps: map[*value]*smap{},
 	}
 	i := newInterpreter(e.P, st)
 	g := &gor{id: 0, name: "main", wake: make(chan struct{}, 1)}
@@ -283,13 +283,16 @@ func (w *Worker) collect(st *pathState) {
 		ctx := st.ctx
 		if outKnown == "" {
 			// outside every declared region?
-			res, m := w.solver.CheckModel(st.pc, vars, ctx.Not(st.regionTerm()))
+			res, m := w.solver.CheckModel(st.pc, vars, ctx.Not(st.regionTerm("")))
 			if res == sym.Sat {
 				outViol = &Violation{Kind: kind, ID: kind, Msg: desc, Model: m, Inputs: st.inputs, Trace: st.trace, Panic: st.panicInfo}
 			} else if res == sym.Unknown {
 				st.inexact = true
 			}
 			for _, rg := range st.regions {
+				if len(rg.scope) > 0 {
+					continue
+				}
 				res2, m2 := w.solver.CheckModel(st.pc, vars, rg.t)
 				if res2 == sym.Sat {
 					st.events = append(st.events, Event{Kind: EvKnownObserved, ID: rg.id, Model: m2, Msg: kind + ": " + desc})
